@@ -251,6 +251,34 @@ pub struct ExtV1B {
     pub t: ExtTree,
 }
 
+// text outside of ASCII (several bytes per character) in the declarations of a shared file that needs no imports
+/// Größe und Gewicht – 日本語のコメント
+#[derive(TS)]
+#[ts(export_to = "m/uni.ts")]
+pub struct UniAlpha {
+    /// Breite in „mm“
+    pub width: u32,
+}
+#[derive(TS)]
+#[ts(export_to = "m/uni.ts")]
+pub enum UniBeta {
+    #[ts(rename = "grün")]
+    Green,
+    #[ts(rename = "weiß")]
+    White,
+}
+#[derive(TS)]
+#[ts(export_to = "m/uni.ts")]
+pub struct UniGamma {
+    pub g: bool,
+}
+/// naïve – ω
+#[derive(TS)]
+#[ts(export_to = "m/uni.ts")]
+pub struct UniOmega {
+    pub o: String,
+}
+
 pub fn registry() -> Vec<TypeEntry> {
     vec![
         TypeEntry::serde::<UA>("UA", "UA"),
@@ -291,6 +319,10 @@ pub fn registry() -> Vec<TypeEntry> {
         TypeEntry::ts::<ExtTree>("ExtTree", "ExtTree"),
         TypeEntry::ts::<ExtV1A>("ExtV1A", "ExtV1A"),
         TypeEntry::ts::<ExtV1B>("ExtV1B", "ExtV1B"),
+        TypeEntry::ts::<UniAlpha>("UniAlpha", "UniAlpha"),
+        TypeEntry::ts::<UniBeta>("UniBeta", "UniBeta"),
+        TypeEntry::ts::<UniGamma>("UniGamma", "UniGamma"),
+        TypeEntry::ts::<UniOmega>("UniOmega", "UniOmega"),
         // not exportable roots
         TypeEntry::ts::<i32>("prim:i32", "i32"),
         TypeEntry::ts::<Vec<UA>>("prim:Vec<UA>", "Vec<UA>"),
